@@ -145,7 +145,7 @@ func newCtx(prop, tier string, needRace bool) (*Ctx, int) {
 	if nw < 1 {
 		nw = 1
 	}
-	c.Pool = NewPool(c.Build.SimWorker, []string{"-corpus", filepath.Join(verifDir, "corpus"), "-nsites", strconv.Itoa(c.Build.NSites)}, nil, nw, 120*time.Second)
+	c.Pool = NewPool(c.Build.SimWorker, []string{"-corpus", filepath.Join(verifDir, "corpus"), "-nsites", strconv.Itoa(c.Build.NSites)}, nil, nw, 40*time.Second)
 	return c, 0
 }
 
